@@ -10,7 +10,7 @@
 From Coq Require Import List Bool NArith PeanoNat.
 Import ListNotations.
 Require Import PV.Binder.Kind PV.Gen.Kinds PV.Binder.Sig PV.Binder.Bind PV.Binder.PyBind.
-Require Import PV.Proofs.BinderConcrete PV.Proofs.BinderValid PV.Proofs.BinderStar PV.Proofs.BinderMain PV.Proofs.BinderDef PV.Proofs.BinderGen PV.Proofs.BinderPositions PV.Proofs.BinderRaw.
+Require Import PV.Proofs.BinderConcrete PV.Proofs.BinderValid PV.Proofs.BinderStar PV.Proofs.BinderMain PV.Proofs.BinderDef PV.Proofs.BinderGen PV.Proofs.BinderPositions PV.Proofs.BinderRaw PV.Proofs.BinderOnce.
 Require Import PV.Binder.BindCore PV.Gen.BinderShape.
 Open Scope N_scope.
 
@@ -196,3 +196,18 @@ Theorem C05_raw_reject_complete_partial : forall s ps ks,
   forall npos kws, raw_expands true (ps ++ ks) npos kws -> py_bind s npos kws = false.
 Proof. exact raw_reject_complete_partial. Qed.
 Print Assumptions C05_raw_reject_complete_partial.
+
+(* 10. Binds-once (used per instance by the overload theorems of C08): when the binder
+       accepts a call without star-arguments, every parameter has exactly one entry (in
+       signature order), the positional arguments consumed — by Pos entries or by the slice
+       *args collects — are exactly 0 .. n-1 in order, and the keyword arguments consumed —
+       by Kw entries or by the names **kwargs collects — are a permutation of the call's
+       keywords: no actual is bound twice or dropped. *)
+Theorem C05_bind_binds_once : forall s a b,
+  valid_sig s = true -> concrete a -> names_nodup (map fst (keywords a)) = true ->
+  bind s a = Some b ->
+  map (fun e : entry => fst (fst e)) b = map pname s
+  /\ pos_used b = seq 0 (length (positionals a))
+  /\ Permutation.Permutation (kw_used b) (map fst (keywords a)).
+Proof. exact bind_binds_once. Qed.
+Print Assumptions C05_bind_binds_once.
